@@ -289,9 +289,190 @@ SPEC = {
                                    'notes': dict(reactions=[R('Reaction+notes_str'), R('Reaction')])}),
 }
 
+# ----------------------------------------------------------------------------- generic value families
+# (added after the wave-2 seeded changes; every family is applied to every class it makes sense for)
+PI = 3.141592653589793          # PI-multiples need all 17 significant digits at any magnitude
+
+
+def NPF(v):
+    return {'$npf': v}          # numpy.float64 scalar
+
+
+def NPI(v):
+    return {'$npi': v}          # numpy.int64 scalar (what pandas / numpy hand out for whole numbers)
+
+
+# free-form notes whose keys / values collide with the encoder's own vocabulary ('class', 'type', '_id'
+# are the keys json_to_pmutt / remove_class look at) or nest further plain containers
+NOTES_MENU = {
+    'notes_class_key': {'source': 'DFT', 'class': 'oxygenate', 'family': 'C0'},
+    'notes_class_nonstr': {'class': 3, 'type': ['a', 'b']},
+    'notes_type_key': {'type': 'nasa', '_id': 'abc123', 'name': 'not the species name'},
+    'notes_nested': {'calc': {'code': 'VASP', 'kpts': [3, 3, 1], 'class': 'slab'}, 'tags': ['a', 'b'],
+                     'converged': True, 'doi': None, 'cutoff': 400.5},
+    'notes_empty': {},
+}
+
+T_DATA = [300.0 + 100.0 * i for i in range(13)]
+CP_DATA = [3.5 + 1.2e-3 * t - 2.0e-7 * t * t for t in T_DATA]
+_SPECIES_BY_NAME = {'H2': R('Nasa'), 'O2': R('Nasa+as_O2'), 'H2O': R('Nasa+as_H2O'), 'H(S)': R('Nasa+surf'),
+                    'H2(S)': R('Nasa+surf2')}
+_H2_KW = dict(name='H2', elements={'H': 2}, phase='G')
+
+EXTRA = {
+    'FreeTrans': dict(variants={'precise': dict(molecular_weight=PI * 5.7),
+                                'np_scalars': dict(n_degrees=NPI(3), molecular_weight=NPF(18.01528))}),
+    'HarmonicVib': dict(variants={'precise': dict(vib_wavenumbers=[PI * 1000, PI * 500 / 7, 1000 / 3],
+                                                  imaginary_substitute=PI * 10),
+                                  'repeated': dict(vib_wavenumbers=[1650.2, 1650.2, 432.1, 432.1]),
+                                  'descending': dict(vib_wavenumbers=[3935.9, 3825.434, 1650.2]),
+                                  'np_items': dict(vib_wavenumbers=[NPF(3825.434), NPI(1650), 3935.9]),
+                                  'np_ints': dict(vib_wavenumbers=NP([3825, 1650, 3936]))}),
+    'QRRHOVib': dict(variants={'precise': dict(vib_wavenumbers=[PI * 30, PI * 500 / 7], Bav=PI * 1e-44, v0=PI * 30),
+                               'np_scalars': dict(alpha=NPI(4), v0=NPF(100.0), Bav=NPF(2.5e-44)),
+                               'repeated': dict(vib_wavenumbers=[95.5, 95.5, 1650.2])}),
+    'EinsteinVib': dict(variants={'precise': dict(einstein_temperature=PI * 100, interaction_energy=-PI / 10),
+                                  'np_scalars': dict(einstein_temperature=NPF(300.0), interaction_energy=NPI(-1))}),
+    'DebyeVib': dict(variants={'precise': dict(debye_temperature=PI * 100, interaction_energy=-PI / 10),
+                               'ints': dict(debye_temperature=450, interaction_energy=-1),
+                               'np_scalars': dict(debye_temperature=NPF(300.0), interaction_energy=NPF(-0.25))}),
+    'RigidRotor': dict(variants={'precise': dict(rot_temperatures=[PI * 10, PI * 7, PI * 4 / 3]),
+                                 'np_scalars': dict(symmetrynumber=NPI(2)),
+                                 'repeated': dict(rot_temperatures=[20.9, 20.9, 13.4]),
+                                 'ints': dict(rot_temperatures=[39, 21, 13])}),
+    'GroundStateElec': dict(variants={'precise': dict(potentialenergy=-PI * 4.5),
+                                      'np_scalars': dict(potentialenergy=NPF(-14.2209), spin=NPF(0.5)),
+                                      'ints': dict(potentialenergy=-14, spin=1),
+                                      'np_ints': dict(potentialenergy=NPI(-14), spin=NPI(1))}),
+    'ConstantMode': dict(variants={'precise': dict(q=PI, H=-PI / 4, S=PI * 1e-4, Cp=PI * 1e-5),
+                                   'ints': dict(q=2, H=-1, G=-2),
+                                   'np_scalars': dict(q=NPF(2.5), H=NPI(-1))}),
+    'vanDerWaalsEOS': dict(variants={'precise': dict(a=PI / 6, b=PI * 1e-5),
+                                     'np_scalars': dict(a=NPF(0.547), b=NPF(3.05e-5)),
+                                     'np_ints': dict(a=NPI(1), b=NPI(0))},
+                           factories={'crit_h2o': ('from_critical', dict(Tc=647.096, Pc=220.64)),
+                                      'crit_he': ('from_critical', dict(Tc=5.1953, Pc=2.2746)),
+                                      'crit_int': ('from_critical', dict(Tc=304, Pc=74))}),
+    'CatSite': dict(variants={'precise': dict(site_density=PI * 1e-9, density=PI * 7),
+                              'np_scalars': dict(site_density=NPF(2.1671e-9), density=NPI(21))}),
+    'PiecewiseCovEffect': dict(variants={'precise': dict(intervals=[0.0, PI / 10], slopes=[PI * 3, -PI * 1e-3]),
+                                         'np_float': dict(intervals=NP([0.0, 0.5]), slopes=NP([10.0, 25.0])),
+                                         'np_ints': dict(intervals=NP([0, 1]), slopes=NP([5, 7])),
+                                         'np_items': dict(intervals=[NPF(0.0), NPF(0.5)], slopes=[NPI(10), NPF(25.0)]),
+                                         'repeated': dict(intervals=[0.0, 0.5, 0.5], slopes=[10.0, 10.0, 25.0])},
+                               mutators={'insert': ('insert', dict(interval=0.25, slope=-4.0)),
+                                         'insert_top': ('insert', dict(interval=0.9, slope=7)),
+                                         'pop': ('pop', dict(i=1))}),
+    'StatMech': dict(variants={'precise': dict(trans_model=R('FreeTrans+precise'), vib_model=R('HarmonicVib+precise'),
+                                               rot_model=R('RigidRotor+precise'),
+                                               elec_model=R('GroundStateElec+precise')),
+                               'elements_np': dict(elements={'H': NPI(2), 'O': NPI(1)}),
+                               'elements_frac': dict(elements={'H': 2.0, 'O': 0.5})},
+                     factories={'idealgas': ('__init__', {'$preset': 'idealgas', 'name': 'H2O',
+                                                          'elements': {'H': 2, 'O': 1}, 'molecular_weight': 18.01528,
+                                                          'vib_wavenumbers': [3825.434, 1650.2, 3935.9],
+                                                          'potentialenergy': -14.2209, 'spin': 0.0,
+                                                          'geometry': 'nonlinear',
+                                                          'rot_temperatures': [39.4, 20.9, 13.4],
+                                                          'symmetrynumber': 2}),
+                                'harmonic': ('__init__', {'$preset': 'harmonic', 'name': 'H2O(S)',
+                                                          'vib_wavenumbers': NP([3825, 1650, 3936, 200, 150, 90]),
+                                                          'potentialenergy': NPF(-14.9), 'spin': 0})}),
+    'Nasa': dict(variants={'precise': dict(a_low=[v * PI / 3 for v in A_LOW], a_high=[v * PI / 3 for v in A_HIGH],
+                                           T_mid=PI * 150),
+                           'np_scalars': dict(T_low=NPF(100.0), T_mid=NPF(500.0), T_high=NPF(1500.0)),
+                           'np_ints': dict(a_low=NP([3, 0, 0, 0, 0, -1000, 5]), a_high=NP([3, 0, 0, 0, 0, -900, 6]),
+                                           T_low=NPI(100), T_mid=NPI(500), T_high=NPI(1500)),
+                           'int_lists': dict(a_low=[3, 0, 0, 0, 0, -1000, 5], a_high=[3, 0, 0, 0, 0, -900, 6]),
+                           'elements_np': dict(elements={'H': NPI(2)}),
+                           'n_sites_np': dict(name='H2(S)', phase='S', n_sites=NPI(2))},
+                 factories={'from_model': ('from_model', dict(_H2_KW, model=R('StatMech+as_H2'), T_low=300.0,
+                                                              T_high=1000.0)),
+                            'from_data': ('from_data', dict(_H2_KW, T=NP(T_DATA), CpoR=NP(CP_DATA), T_ref=298.15,
+                                                            HoRT_ref=-1.5, SoR_ref=15.7))}),
+    'SingleNasa9': dict(variants={'precise': dict(a=NP([v * PI / 3 for v in A9])), 'a_list': dict(a=A9),
+                                  'np_ints': dict(a=NP([10000, -50, 3, 0, 0, 0, 0, -1000, 5])),
+                                  'int_list': dict(a=[10000, -50, 3, 0, 0, 0, 0, -1000, 5]),
+                                  'np_scalars': dict(T_low=NPF(200.0), T_high=NPI(1000))}),
+    'Nasa9': dict(variants={'desc_seg': dict(nasas=[R('SingleNasa9+high'), R('SingleNasa9')]),
+                            'seg_lists': dict(nasas=[R('SingleNasa9+a_list')]),
+                            'elements_np': dict(elements={'H': NPI(2)})},
+                  factories={'from_model': ('from_model', dict(_H2_KW, model=R('StatMech+as_H2'), T_low=300.0,
+                                                               T_high=2000.0)),
+                             'from_data': ('from_data', dict(_H2_KW, T=NP(T_DATA), CpoR=NP(CP_DATA), T_ref=298.15,
+                                                             HoRT_ref=-1.5, SoR_ref=15.7))}),
+    'Shomate': dict(variants={'precise': dict(a=NP([v * PI / 3 for v in SHO])),
+                              'int_list': dict(a=[21, 3, -1, 0, 0, -6, 180, 0]),
+                              'np_scalars': dict(T_low=NPF(298.0), T_high=NPI(6000))},
+                    factories={'from_model': ('from_model', dict(_H2_KW, model=R('StatMech+as_H2'), T_low=300.0,
+                                                                 T_high=1000.0)),
+                               'from_data': ('from_data', dict(_H2_KW, T=NP(T_DATA), CpoR=NP(CP_DATA), T_ref=298.15,
+                                                               HoRT_ref=-1.5, SoR_ref=15.7))}),
+    'Reference': dict(variants={'precise': dict(HoRT_ref=-PI * 30, T_ref=PI * 95),
+                                'np_scalars': dict(T_ref=NPF(298.15), HoRT_ref=NPF(0.0)),
+                                'ints': dict(T_ref=298, HoRT_ref=0),
+                                'np_ints': dict(T_ref=NPI(298), HoRT_ref=NPI(0))}),
+    'References': dict(variants={'precise': dict(offset={'H': -PI / 2, 'O': PI * 0.7}, references=None),
+                                 'offset_ints': dict(offset={'H': -1, 'O': 2}, references=None),
+                                 'offset_np': dict(offset={'H': NPF(-1.5), 'O': NPI(2)}, references=None)}),
+    'BEP': dict(variants={'precise': dict(slope=PI / 6, intercept=PI * 6),
+                          'np_scalars': dict(slope=NPF(0.5), intercept=NPI(20))}),
+    'Reaction': dict(variants={'precise': dict(reactants_stoich=[1 / 3, 2 / 3], products_stoich=[PI / 4]),
+                               'stoich_np_int': dict(reactants_stoich=NP([2, 1]), products_stoich=NP([2])),
+                               'stoich_np_items': dict(reactants_stoich=[NPF(1.0), NPF(0.5)],
+                                                       products_stoich=[NPI(1)]),
+                               'repeated': dict(reactants=[R('Nasa'), R('Nasa')], reactants_stoich=[0.5, 0.5],
+                                                products=[R('Nasa')], products_stoich=[1.0]),
+                               'ts_np_int': dict(transition_state=[R('Nasa+as_H2O')],
+                                                 transition_state_stoich=NP([1]))},
+                     factories={'from_string': ('from_string', dict(reaction_str='H2 + 0.5O2 = H2O',
+                                                                    species=_SPECIES_BY_NAME)),
+                                'from_string_ts': ('from_string', dict(reaction_str='2H2+O2=H2O=2H2O',
+                                                                       species=_SPECIES_BY_NAME,
+                                                                       notes={'class': 'oxidation'}))}),
+    'ChemkinReaction': dict(variants={'precise': dict(beta=PI / 3, is_adsorption=True, sticking_coeff=PI / 10),
+                                      'np_scalars': dict(beta=NPF(0.5), is_adsorption=True,
+                                                         sticking_coeff=NPF(0.3)),
+                                      'beta_int': dict(beta=2), 'beta_np_int': dict(beta=NPI(2)),
+                                      'stoich_np_int': dict(reactants_stoich=NP([1]), products_stoich=NP([2]))},
+                            factories={'from_string': ('from_string', dict(reaction_str='H2 = 2H(S)',
+                                                                           species=_SPECIES_BY_NAME,
+                                                                           is_adsorption=True,
+                                                                           sticking_coeff=0.25))}),
+    'SurfaceReaction': dict(variants={'precise': dict(A=PI * 1e13, Ea=PI * 4, beta=PI / 3),
+                                      'np_scalars': dict(A=NPF(1.0e13), Ea=NPF(12.5), beta=NPF(0.5)),
+                                      'np_ints': dict(beta=NPI(2)), 'ints': dict(A=1, Ea=12, beta=2),
+                                      'stoich_np_int': dict(reactants_stoich=NP([1]), products_stoich=NP([2]))},
+                            factories={'from_string': ('from_string', dict(reaction_str='H2 = 2H(S)',
+                                                                           species=_SPECIES_BY_NAME, id='r_7',
+                                                                           A=1.0e13, Ea=PI))}),
+    'LSR': dict(variants={'precise': dict(slope=PI / 6, intercept=PI / 2, reaction=-PI * 3),
+                          'np_scalars': dict(slope=NPF(0.5), intercept=NPF(1.25), reaction=NPF(-10.5)),
+                          'ints': dict(slope=1, intercept=0, reaction=-10, surf_species=-5, gas_species=-3),
+                          'np_ints': dict(slope=NPI(1), intercept=NPI(0), reaction=NPI(-10))}),
+    'Reactions': dict(variants={'precise': dict(reactions=[R('Reaction+precise')]),
+                                'repeated': dict(reactions=[R('Reaction'), R('Reaction')]),
+                                'from_string': dict(reactions=[R('Reaction@from_string')])}),
+    'PhaseDiagram': dict(variants={'precise': dict(norm_factors=[PI / 2, PI]), 'norm_ints': dict(norm_factors=[2, 4]),
+                                   'norm_np_ints': dict(norm_factors=NP([2, 4]))}),
+}
+
+for _k, _sp in SPEC.items():
+    if 'notes_dict' in _sp['variants']:
+        for _n, _v in NOTES_MENU.items():
+            _sp['variants'][_n] = dict(notes=_v)
+    _e = EXTRA.get(_k, {})
+    for _n, _v in _e.get('variants', {}).items():
+        assert _n not in _sp['variants'], (_k, _n)
+        _sp['variants'][_n] = _v
+    _sp['factories'] = _e.get('factories', {})
+    _sp['mutators'] = _e.get('mutators', {})
+
 CLASSES = sorted(SPEC)
 
 # nesting chains the census is meant to contain (anti-vacuity tags)
+NO_EDIT = {}
+
 NEST_TAGS = {'nested:species>reaction>reactions': ('Reactions', 'Reaction', 'Nasa'),
              'nested:species>reaction>phasediagram': ('PhaseDiagram', 'Reaction', 'Nasa'),
              'nested:species>reaction>lsr': ('LSR', 'Reaction', 'StatMech'),
@@ -302,7 +483,11 @@ NEST_TAGS = {'nested:species>reaction>reactions': ('Reactions', 'Reaction', 'Nas
 PLANNED_TAGS = (['roundtrip:%s' % k for k in CLASSES] + ['getters:%s' % k for k in CLASSES]
                 + ['op:json', 'op:dict', 'depth:1', 'depth:2', 'depth:3', 'hook:dict-holding-decoded-objects',
                    'hook:plain-leaf-dict', 'value:notes-dict', 'value:ndarray', 'value:none-list',
-                   'value:int-for-float', 'value:empty-list']
+                   'value:int-for-float', 'value:empty-list', 'value:int-ndarray', 'value:numpy-scalar',
+                   'value:notes-reserved-key', 'value:notes-nested', 'value:repeated-items',
+                   'value:full-precision-float', 'made-by:factory', 'made-by:setattr', 'made-by:mutator',
+                   'edited-then-encoded', 'poke:list', 'poke:dict', 'poke:ndarray', 'side-by-side',
+                   'side-by-side:several-objects']
                 + sorted(NEST_TAGS))
 
 # minimum number of distinct getters that must have been *evaluated and compared* on some instance
@@ -323,18 +508,42 @@ def bounds(tier):
 
 
 def instances(tier):
+    """Census recipes.  Grammar: ``Class[+variant...]`` (constructor), ``Class@factory`` (classmethod or
+    preset), each optionally followed by ``~variant`` (the variant's attributes assigned with setattr
+    *after* construction) or ``~!mutator`` (a public mutating method called after construction)."""
     out = []
     for k in CLASSES:
         out.append(k)
         vs = sorted(SPEC[k]['variants'])
         out += ['%s+%s' % (k, v) for v in vs]
+        out += ['%s@%s' % (k, f) for f in sorted(SPEC[k]['factories'])]
+        out += ['%s~%s' % (k, v) for v in vs if v not in NO_EDIT.get(k, ())]
+        out += ['%s~!%s' % (k, m) for m in sorted(SPEC[k]['mutators'])]
         if tier == 'thorough':
             for i, a in enumerate(vs):
                 for b in vs[i + 1:]:
                     if set(SPEC[k]['variants'][a]) & set(SPEC[k]['variants'][b]):
                         continue
                     out.append('%s+%s+%s' % (k, a, b))
+            for f in sorted(SPEC[k]['factories']):
+                out += ['%s@%s~!%s' % (k, f, m) for m in sorted(SPEC[k]['mutators'])]
+            for v in vs:
+                out += ['%s+%s~!%s' % (k, v, m) for m in sorted(SPEC[k]['mutators'])]
     return out
+
+
+def class_key(recipe):
+    return re.split(r'[+@~]', recipe, 1)[0]
+
+
+def parse(recipe):
+    """(class key, variant names, factory name or None, edit name or None)"""
+    head, _, edit = recipe.partition('~')
+    if '@' in head:
+        k, f = head.split('@')
+        return k, [], f, (edit or None)
+    parts = head.split('+')
+    return parts[0], parts[1:], None, (edit or None)
 
 
 # relative cost of one instance (getter-heavy classes are slow): used only to balance shards
@@ -345,14 +554,16 @@ _COST = {'Reaction': 39, 'SurfaceReaction': 32, 'ChemkinReaction': 22, 'PhaseDia
 
 def shards(tier):
     n = N_SHARDS[tier]
-    inst = sorted(instances(tier), key=lambda r: (-_COST.get(r.split('+')[0], 3), r))
+    inst = sorted(instances(tier), key=lambda r: (-_COST.get(class_key(r), 3), r))
     bins = [[] for _ in range(n)]
     load = [0] * n
     for r in inst:
         i = load.index(min(load))
         bins[i].append(r)
-        load[i] += _COST.get(r.split('+')[0], 3)
-    return [dict(recipes=b, depth=DEPTH[tier], tier=tier) for b in bins if b]
+        load[i] += _COST.get(class_key(r), 3)
+    out = [dict(recipes=b, depth=DEPTH[tier], tier=tier) for b in bins if b]
+    out += [dict(kind='interleave', cls=k, tier=tier) for k in CLASSES]
+    return out
 
 
 # ----------------------------------------------------------------------------- building
@@ -362,6 +573,10 @@ def _value(spec):
             return build(spec['$r'])
         if '$np' in spec:
             return np.array(spec['$np'])
+        if '$npf' in spec:
+            return np.float64(spec['$npf'])
+        if '$npi' in spec:
+            return np.int64(spec['$npi'])
         return {k: _value(v) for k, v in spec.items()}
     if isinstance(spec, list):
         return [_value(v) for v in spec]
@@ -369,20 +584,60 @@ def _value(spec):
 
 
 def _kwargs(recipe):
-    parts = recipe.split('+')
-    sp = SPEC[parts[0]]
+    """(class spec, keyword specification of the construction call) - the ``~edit`` part is not included."""
+    k, vs, fac, _ = parse(recipe)
+    sp = SPEC[k]
+    if fac is not None:
+        return sp, dict(sp['factories'][fac][1])
     kw = dict(sp['base'])
-    for v in parts[1:]:
+    for v in vs:
         kw.update(sp['variants'][v])
     return sp, kw
 
 
+def _edit_spec(recipe):
+    """Keyword specification of the ``~edit`` part ({} when there is none)."""
+    k, _, _, edit = parse(recipe)
+    if edit is None:
+        return {}
+    if edit.startswith('!'):
+        return dict(SPEC[k]['mutators'][edit[1:]][1])
+    return dict(SPEC[k]['variants'][edit])
+
+
+class NotApplicable(Exception):
+    """The ``~edit`` of a recipe names an attribute the constructed object does not have."""
+
+
 def build(recipe):
-    """Construct the real object of a census recipe ('Class+variant+variant')."""
+    """Construct the real object of a census recipe."""
+    k, vs, fac, edit = parse(recipe)
     sp, kw = _kwargs(recipe)
     modname, clsname = sp['cls'].split(':')
     cls = getattr(importlib.import_module(modname), clsname)
-    return cls(**{k: _value(copy.deepcopy(v)) for k, v in kw.items()})
+    kw = copy.deepcopy(kw)
+    preset = kw.pop('$preset', None)
+    vals = {a: _value(v) for a, v in kw.items()}
+    if preset is not None:
+        from pmutt.statmech import presets
+        vals = dict(presets[preset], **vals)
+    with warnings.catch_warnings():
+        warnings.simplefilter('ignore')
+        if fac is not None and sp['factories'][fac][0] != '__init__':
+            obj = getattr(cls, sp['factories'][fac][0])(**vals)
+        else:
+            obj = cls(**vals)
+        if edit is not None:
+            es = copy.deepcopy(_edit_spec(recipe))
+            if edit.startswith('!'):
+                getattr(obj, sp['mutators'][edit[1:]][0])(**{a: _value(v) for a, v in es.items()})
+            else:
+                for a in es:
+                    if not hasattr(obj, a):
+                        raise NotApplicable('%s has no attribute %s' % (clsname, a))
+                for a, v in es.items():
+                    setattr(obj, a, _value(v))
+    return obj
 
 
 def _nested_classes(recipe):
@@ -393,7 +648,7 @@ def _nested_classes(recipe):
         if isinstance(spec, dict):
             if '$r' in spec:
                 rec(spec['$r'], chain)
-            elif '$np' not in spec:
+            elif not (set(spec) & {'$np', '$npf', '$npi'}):
                 for v in spec.values():
                     walk(v, chain)
         elif isinstance(spec, list):
@@ -401,28 +656,63 @@ def _nested_classes(recipe):
                 walk(v, chain)
 
     def rec(r, chain):
-        chain = chain + (r.split('+')[0],)
+        chain = chain + (class_key(r),)
         chains.add(chain)
         _, kw = _kwargs(r)
-        for v in kw.values():
+        for v in list(kw.values()) + list(_edit_spec(r).values()):
             walk(v, chain)
     rec(recipe, ())
     return chains
 
 
-def _value_tags(recipe, ctx):
-    _, kw = _kwargs(recipe)
-    for k, v in kw.items():
-        if k == 'notes' and isinstance(v, dict):
-            ctx.tag('value:notes-dict')
-        if isinstance(v, dict) and '$np' in v:
+RESERVED_KEYS = ('class', 'type', '_id')
+
+
+def _leaf_tags(v, ctx, key=None):
+    """Tags for the kinds of values found anywhere inside one keyword specification."""
+    if isinstance(v, dict):
+        if '$np' in v:
             ctx.tag('value:ndarray')
-        if v is None and k in ('rot_temperatures', 'references'):
-            ctx.tag('value:none-list')
-        if isinstance(v, int) and not isinstance(v, bool):
-            ctx.tag('value:int-for-float')
+            if all(isinstance(x, int) for x in v['$np']) and v['$np']:
+                ctx.tag('value:int-ndarray')
+            return
+        if '$npf' in v or '$npi' in v:
+            ctx.tag('value:numpy-scalar')
+            return
+        if '$r' in v:
+            return
+        if key == 'notes':
+            ctx.tag('value:notes-dict')
+            if any(k in RESERVED_KEYS for k in v):
+                ctx.tag('value:notes-reserved-key')
+            if any(isinstance(x, (dict, list)) for x in v.values()):
+                ctx.tag('value:notes-nested')
+        for x in v.values():
+            _leaf_tags(x, ctx)
+    elif isinstance(v, list):
         if v == []:
             ctx.tag('value:empty-list')
+        if len(v) != len({core.dumps(x) for x in v}):
+            ctx.tag('value:repeated-items')
+        for x in v:
+            _leaf_tags(x, ctx)
+    elif isinstance(v, int) and not isinstance(v, bool):
+        ctx.tag('value:int-for-float')
+    elif isinstance(v, float) and v not in (0.0,) and float('%.12g' % v) != v:
+        ctx.tag('value:full-precision-float')
+
+
+def _value_tags(recipe, ctx):
+    _, kw = _kwargs(recipe)
+    k, vs, fac, edit = parse(recipe)
+    if fac is not None:
+        ctx.tag('made-by:factory')
+    if edit is not None:
+        ctx.tag('made-by:mutator' if edit.startswith('!') else 'made-by:setattr')
+    for k, v in list(kw.items()) + list(_edit_spec(recipe).items()):
+        if v is None and k in ('rot_temperatures', 'references'):
+            ctx.tag('value:none-list')
+        _leaf_tags(v, ctx, key=k)
     chains = _nested_classes(recipe)
     for tag, want in NEST_TAGS.items():
         for ch in chains:
@@ -475,9 +765,10 @@ def ctor_params(cls):
     return names
 
 
-def canon(v, depth=0):
+def canon(v, depth=0, full=False):
     """Canonical, JSON-able, type-insensitive form of a value (numbers as float, containers as
-    lists, pMuTT objects as {'__class__', <constructor attributes>})."""
+    lists, pMuTT objects as {'__class__', <constructor attributes>}; with ``full`` every instance
+    attribute, private ones included)."""
     if depth > 12:
         return '<deep>'
     if v is None or isinstance(v, (bool, np.bool_)):
@@ -492,25 +783,122 @@ def canon(v, depth=0):
             return 'Infinity' if f > 0 else '-Infinity'
         return f
     if isinstance(v, np.ndarray):
-        return canon(v.tolist(), depth + 1)
+        return canon(v.tolist(), depth + 1, full)
     if isinstance(v, (list, tuple)):
-        return [canon(x, depth + 1) for x in v]
+        return [canon(x, depth + 1, full) for x in v]
     if isinstance(v, dict):
-        return {str(k): canon(x, depth + 1) for k, x in v.items()}
+        return {str(k): canon(x, depth + 1, full) for k, x in v.items()}
     if is_pmutt(v):
-        return observe(v, depth + 1)
+        return observe(v, depth + 1, full)
     return '<%s>' % type(v).__name__
 
 
-def observe(obj, depth=0):
+def observe(obj, depth=0, full=False):
     out = {'__class__': '%s.%s' % (type(obj).__module__, type(obj).__name__)}
-    for name in ctor_params(type(obj)):
+    names = list(ctor_params(type(obj)))
+    if full:
+        names += [n for n in sorted(vars(obj)) if n not in names]
+    for name in names:
         try:
             val = getattr(obj, name)
         except AttributeError:
             continue
-        out[name] = canon(val, depth + 1)
+        out[name] = canon(val, depth + 1, full)
     return out
+
+
+# ----------------------------------------------------------------------------- editing decoded objects
+POKE = '<poke>'
+
+
+def pmutt_objects_in(plain):
+    """ids of the pMuTT objects held (through lists / dicts) by a dictionary handed to the hook."""
+    ids = set()
+
+    def walk(v):
+        if isinstance(v, dict):
+            for x in v.values():
+                walk(x)
+        elif isinstance(v, (list, tuple)):
+            for x in v:
+                walk(x)
+        elif is_pmutt(v):
+            ids.add(id(v))
+    walk(plain)
+    return ids
+
+
+def containers(root, stop=()):
+    """Every mutable container (list, dict, ndarray) reachable from root through items and instance
+    attributes, not entering the pMuTT objects whose id is in ``stop``."""
+    out, seen = [], set()
+
+    def walk(v):
+        if id(v) in seen:
+            return
+        if isinstance(v, (list, dict)):
+            seen.add(id(v))
+            out.append(v)
+            for x in (list(v.values()) if isinstance(v, dict) else list(v)):
+                walk(x)
+        elif isinstance(v, tuple):
+            for x in v:
+                walk(x)
+        elif isinstance(v, np.ndarray):
+            seen.add(id(v))
+            out.append(v)
+        elif is_pmutt(v):
+            if id(v) in stop:
+                return
+            seen.add(id(v))
+            for x in list(vars(v).values()):
+                walk(x)
+    walk(root)
+    return out
+
+
+def poke(conts, ctx):
+    """Edit every container in place (what a user does with o.elements['H'] = 3, cov.insert(...),
+    o.a_low[0] += 1)."""
+    n = 0
+    for c in conts:
+        if isinstance(c, list):
+            c.append(POKE)
+            ctx.tag('poke:list')
+        elif isinstance(c, dict):
+            c[POKE] = POKE
+            ctx.tag('poke:dict')
+        elif c.size and c.dtype.kind in 'fiu' and c.flags.writeable:
+            c.flat[0] = c.flat[0] + 1
+            ctx.tag('poke:ndarray')
+        else:
+            continue
+        n += 1
+    return n
+
+
+def check_untouched(ctx, clause, before, after, sig, case, n):
+    """before/after are canonical observations of something that must not have changed."""
+    diffs = sdiff(before, after)
+    if not diffs:
+        ctx.true(clause, True, sig, case, observed=n)
+        return True
+    seen = set()
+    for path, x, y in diffs:
+        c, k = locate(before, path)
+        s = dict(cls=c or sig['cls'], op=sig['op'], attr=str(k))
+        if (s['cls'], s['attr']) in seen:
+            continue
+        seen.add((s['cls'], s['attr']))
+        ctx.fail(clause, s, case, _brief(y), _brief(x))
+    return False
+
+
+CL_EDIT_DICT = 'editing a decoded object leaves the dictionary it was decoded from intact'
+CL_EDIT_TWIN = 'editing a decoded object leaves another object decoded from the same dictionary unchanged'
+CL_EDIT_SRC = 'editing a decoded object leaves the encoded object unchanged'
+CL_ENC_PURE = 'encoding and decoding leave the encoded object unchanged'
+CL_ENC_AGAIN = 'encoding the same object again gives the same output'
 
 
 MISSING = '<missing>'
@@ -712,6 +1100,7 @@ class _Hook:
         self.lib = json_to_pmutt
         self.ctx, self.op, self.case = ctx, op, case
         self.calls = 0
+        self.deferred = []        # in-place edits of the twin objects, run after the comparisons
 
     def __call__(self, d):
         ctx = self.ctx
@@ -746,6 +1135,15 @@ class _Hook:
         else:
             ctx.true('decoding the same dictionary again gives the same object', True, sig, self.case,
                      observed=o1.get('__class__') if isinstance(o1, dict) else None)
+        # edit the second object in place (not the child objects the dictionary itself holds): neither
+        # the dictionary nor the first object may notice
+        if is_pmutt(second) and second is not first:
+            def edit(ctx=ctx, d=d, before=before, first=first, second=second, sig=sig, case=self.case):
+                full1 = canon(first, full=True)
+                n = poke(containers(second, stop=pmutt_objects_in(d)), ctx)
+                check_untouched(ctx, CL_EDIT_DICT, before, canon(d), sig, case, n)
+                check_untouched(ctx, CL_EDIT_TWIN, full1, canon(first, full=True), sig, case, n)
+            self.deferred.append(edit)
         return first
 
 
@@ -772,6 +1170,8 @@ def apply_op(obj, op, ctx, case):
     sig = dict(cls=cname, op=op)
     ctx.tag('op:' + op)
     ctx.trans()
+    src_before = observe(obj, full=True)
+    deferred = []
     if op == 'json':
         try:
             text = _encode(obj)
@@ -780,6 +1180,7 @@ def apply_op(obj, op, ctx, case):
                      '%s: %s' % (type(e).__name__, str(e)[:200]), 'JSON text')
             raise Stop()
         ctx.true('encodes without error', True, sig, case, observed=cname)
+        ctx.equal(CL_ENC_AGAIN, json.loads(_encode(obj)), json.loads(text), sig, case)
         hook = _Hook(ctx, op, case)
         try:
             new = json.loads(text, object_hook=hook)
@@ -789,6 +1190,12 @@ def apply_op(obj, op, ctx, case):
             raise Stop()
         ctx.true('decodes without error', True, sig, case, observed=cname)
         plain = json.loads(text)
+        check_untouched(ctx, CL_ENC_PURE, src_before, observe(obj, full=True), sig, case, 0)
+        deferred = hook.deferred
+
+        def edit_src(n=len(deferred)):
+            check_untouched(ctx, CL_EDIT_SRC, src_before, observe(obj, full=True), sig, case, n)
+        deferred.append(edit_src)
     elif op == 'dict':
         try:
             d = obj.to_dict()
@@ -798,6 +1205,7 @@ def apply_op(obj, op, ctx, case):
             raise Stop()
         ctx.true('encodes without error', True, sig, case, observed=cname)
         before = canon(d)
+        ctx.equal(CL_ENC_AGAIN, canon(obj.to_dict()), before, sig, case)
         try:
             new = type(obj).from_dict(d)
         except Exception as e:
@@ -822,6 +1230,17 @@ def apply_op(obj, op, ctx, case):
             else:
                 ctx.true('decoding the same dictionary again gives the same object', True, sig, case,
                          observed=o1.get('__class__') if isinstance(o1, dict) else None)
+            check_untouched(ctx, CL_ENC_PURE, src_before, observe(obj, full=True), sig, case, 0)
+            # edit the second decoded object in place: the dictionary, the first decoded object and the
+            # object that was encoded must not notice
+            if is_pmutt(again) and again is not new:
+                def edit():
+                    full1 = canon(new, full=True)
+                    n = poke(containers(again), ctx)
+                    check_untouched(ctx, CL_EDIT_DICT, before, canon(d), sig, case, n)
+                    check_untouched(ctx, CL_EDIT_TWIN, full1, canon(new, full=True), sig, case, n)
+                    check_untouched(ctx, CL_EDIT_SRC, src_before, observe(obj, full=True), sig, case, n)
+                deferred.append(edit)
         plain = before
     else:
         raise ValueError(op)
@@ -832,7 +1251,7 @@ def apply_op(obj, op, ctx, case):
                    dict(sig, got=type(new).__name__), case)
     if not ok:
         raise Stop()
-    return new, plain
+    return new, plain, deferred
 
 
 def compare(orig, new, plan, ctx, op, case, plain):
@@ -943,12 +1362,15 @@ def _run_history(case, ctx, check_all):
         checking = check_all or last
         sub = ctx if checking else _Mute(ctx)
         try:
-            new, plain = apply_op(obj, op, sub, case)
+            new, plain, deferred = apply_op(obj, op, sub, case)
         except Stop:
             return False, None
         if checking:
             healthy = compare(orig, new, plan, ctx, op, case, plain)
-            if not healthy:
+            nviol = sum(ctx.viol_counts.values())
+            for edit in deferred:
+                edit()
+            if not healthy or sum(ctx.viol_counts.values()) != nviol:
                 return False, None
         obj = new
     return healthy, obj
@@ -979,24 +1401,109 @@ class _Mute:
         pass
 
 
+def side_by_side(case, ctx):
+    """All instances of one class alive in one process: every one is encoded, then every one is decoded
+    (in reverse order), then every decoded object is compared with the object it was made from.  A
+    value remembered per class / per name / in a module-level cache shows up here."""
+    from pmutt.io.json import json_to_pmutt
+    k, tier, op = case['cls'], case['tier'], case['op']
+    recipes = [r for r in instances(tier) if class_key(r) == k and '~' not in r]
+    objs = []
+    for r in recipes:
+        try:
+            objs.append((r, build(r), _plan_for(r, tier, ctx)))
+        except Exception as e:
+            if core.classify_exception(e) is None:
+                raise
+    ctx.trace()
+    enc = []
+    for r, o, _ in objs:
+        sig = dict(cls=type(o).__name__, op=op)
+        try:
+            enc.append(_encode(o) if op == 'json' else o.to_dict())
+        except Exception as e:
+            ctx.fail('encodes without error', _exc_sig(sig, e), case, '%s: %s' % (type(e).__name__, str(e)[:200]),
+                     'encoded form')
+            enc.append(None)
+    dec = [None] * len(objs)
+    for i in reversed(range(len(objs))):
+        if enc[i] is None:
+            continue
+        sig = dict(cls=type(objs[i][1]).__name__, op=op)
+        ctx.trans()
+        try:
+            if op == 'json':
+                dec[i] = json.loads(enc[i], object_hook=json_to_pmutt)
+            else:
+                dec[i] = type(objs[i][1]).from_dict(enc[i])
+        except Exception as e:
+            ctx.fail('decodes without error', _exc_sig(sig, e), case, '%s: %s' % (type(e).__name__, str(e)[:200]),
+                     'object')
+    for i, (r, o, plan) in enumerate(objs):
+        if dec[i] is None:
+            continue
+        ok = ctx.equal('decodes to the same class', '%s.%s' % (type(dec[i]).__module__, type(dec[i]).__name__),
+                       '%s.%s' % (type(o).__module__, type(o).__name__),
+                       dict(cls=type(o).__name__, op=op, got=type(dec[i]).__name__), case)
+        if not ok:
+            continue
+        plain = json.loads(enc[i]) if op == 'json' else canon(enc[i])
+        if compare(o, dec[i], plan, ctx, op, case, plain) and len(objs) > 1:
+            ctx.nontrivial(('side-by-side', r, op))
+    ctx.tag('side-by-side')
+    if len(objs) > 1:
+        ctx.tag('side-by-side:several-objects')
+
+
 def check_case(case, ctx):
+    if case.get('kind') == 'interleave':
+        side_by_side(case, ctx)
+        return
     _run_history(case, ctx, check_all=True)
 
 
 def run_shard(shard, ctx):
+    if shard.get('kind') == 'interleave':
+        for op in OPS:
+            case = dict(kind='interleave', cls=shard['cls'], tier=shard['tier'], op=op)
+            ctx.run_case(side_by_side, case, dict(cls=shard['cls'], op=op))
+        return
     depth, tier = shard['depth'], shard['tier']
     for recipe in shard['recipes']:
-        cname = recipe.split('+')[0]
+        cname = class_key(recipe)
         nests = _value_tags(recipe, ctx)
         root = dict(recipe=recipe, ops=[], tier=tier)
         res = {}
 
         def construct(case_, ctx_, res=res):
-            obj = build(case_['recipe'])
+            try:
+                obj = build(case_['recipe'])
+            except NotApplicable as e:
+                res['skip'] = str(e)
+                return
+            k_, vs_, fac_, edit_ = parse(case_['recipe'])
+            if edit_ is not None and not edit_.startswith('!'):
+                # assignment after construction is explored only where it leaves the object in exactly the
+                # state (all instance attributes, recursively) the constructor produces for the same value
+                twin = build('%s+%s' % (k_, edit_))
+                if sdiff(observe(obj, full=True), observe(twin, full=True)):
+                    res['skip'] = 'assigning %s.%s is not equivalent to constructing with it' % (k_, edit_)
+                    return
             res['obs'] = observe(obj)
             res['plan'] = _plan_for(case_['recipe'], tier, ctx_)
         if not ctx.run_case(construct, root, dict(cls=cname, op='construct')):
             continue
+        if 'skip' in res:
+            ctx.refuse('edit after construction not explored: %s' % res['skip'])
+            continue
+        if '~' in recipe:
+            # an edited object that passed the filter above is, after one decode, the state reached from
+            # the constructed twin (mutators: from an object constructed with the edited lists): longer
+            # histories from it are those of plainly constructed census members
+            depth = 1
+            ctx.tag('edited-then-encoded')
+        else:
+            depth = shard['depth']
         ctx.state(('s', core.dumps(res['obs'])))
         ctx.sample(root, limit=1)
         getters = {n for n, _, _ in res['plan']}
@@ -1019,13 +1526,13 @@ def run_shard(shard, ctx):
                         continue            # violated state: reported, not expanded
                     ctx.tag('depth:%d' % d)
                     ctx.state(('s', core.dumps(observe(out['obj']))))
-                    if '+' in recipe or nests:
+                    if recipe != cname or nests:
                         ctx.nontrivial((recipe, tuple(hist + [op])))
                     nxt.append(hist + [op])
                     if d == depth:
                         ctx.sample(case, limit=2)
             frontier = nxt
-        if all_ok and frontier:
+        if all_ok and frontier and '~' not in recipe:
             ctx.tag('roundtrip:%s' % cname)
             if len(getters) >= MIN_GETTERS[cname]:
                 ctx.tag('getters:%s' % cname)
